@@ -4,7 +4,7 @@
 (* under random option records with the real printer, re-parses the text    *)
 (* with the real parser, and records (value, options, text, re-parsed       *)
 (* value).  TLC checks per record                                           *)
-(*    layout    : text = JsonPrinter!Print(value, options)                  *)
+(*    layout    : text = JsonPrinter!Render(value, options)                  *)
 (*    roundtrip : the recorded re-parse equals the value, and the           *)
 (*                specification's parser accepts the text with that value.  *)
 (* `badl` / `badr` collect the events failing either check.                 *)
@@ -16,7 +16,7 @@ Rec == ndJsonDeserialize(IOEnv.TRACE)
 VARIABLES l, badl, badr
 vars == <<l, badl, badr>>
 
-LayoutOK(r) == r.text = Print(r.v, r.o)
+LayoutOK(r) == r.text = Render(r.v, r.o)
 RoundtripOK(r) == /\ r.back = r.v
                   /\ LET s == Run(r.text, Strict) IN s.mode = "done" /\ s.val = r.v
 
